@@ -116,12 +116,12 @@ Fixpoint strictly_sorted (l : list N) : bool :=
   | x :: ((y :: _) as l') => (x <? y) && strictly_sorted l'
   | _ => true
   end.
-(* gateway members of a locality: the weights of the endpoints they stand for, summed without wrapping *)
+(* gateway members of a locality: the weights of the endpoints they stand for, split per gateway and summed with saturation *)
 Definition expected_gw_members (c : cla_in) (loc : N) : list member :=
   match find_port (c_port c) (c_ports c) with
   | None => []
   | Some pname =>
-      map gw_member (sort_gws (gw_weights_with add_sat c (filter (in_loc loc) (selected c pname))))
+      map gw_member (sort_gws (gw_weights c (filter (in_loc loc) (selected c pname))))
   end.
 Definition gw_members_ok (c : cla_in) (g : lgroup) : bool :=
   list_eqb' member_eqb (filter m_gw (snd g)) (if multi_network c then expected_gw_members c (fst (fst g)) else []).
